@@ -462,6 +462,49 @@ def run(ctx):
                     any(f.N(w_)['k'] == 'UnaryOperator' and f.N(w_).get('op') in ('++',) and ev in f.subtree_refs(w_) for L_ in q.loops(f) for w_ in f.walk(L_))
         ctx.check(ok, R6, 'utf_to_utf(%s, how):whole-text-and-method-forwarded' % ('string' if is_str else 'c-string'), 'the convenience overload does not convert the whole text [begin, end) with the caller\'s method '
                   '(a std::string must not be cut at its first NUL)', f.where)
+    # the iconv back-end (the converter behind encodings that have no table here): an error other than "output buffer full" ends a `stop` conversion with an exception
+    PI = model.Program(build.extract([REPO + '/booster/lib/locale/src/encoding/codepage.cpp'], include_re='^/repo/booster/lib/locale/src/encoding/'))
+    ctx.units.append('booster/lib/locale/src/encoding/codepage.cpp')
+    rcs = sorted([g for g in PI.fns.values() if g.short == 'real_convert' and 'iconverter_base' in (g.record or '') and g.body is not None], key=lambda g: g.id)
+    if not rcs:
+        ctx.notes.append('C14.R6: the iconv converter is not compiled in this configuration: clause not applicable')
+    seen_ic = False
+    for g in rcs:
+        resv = [d['ref'] for i in g.all_nodes() if g.N(i)['k'] == 'DeclStmt' for d in g.N(i)['decls'] if d.get('name') == 'res']
+        def is_fail(atom, pol, g=g):
+            n_ = g.N(atom)
+            if n_['k'] != 'BinaryOperator' or n_.get('op') not in ('==', '!='):
+                return False
+            vals = [g.const_value(x) for x in n_['ch']]
+            refs = [g.ref_of(x) for x in n_['ch']]
+            return any(v_ in (-1, 2 ** 64 - 1, 2 ** 32 - 1) for v_ in vals if v_ is not None) and any((x or '').startswith('v:') for x in refs) and pol is (n_['op'] == '==')
+        # the edges on which a failed step is known: the test that is the whole branch condition (a fact inferred from one arm of a
+        # larger condition would start the walk before the place where the code itself asks the question)
+        g_fail = []
+        for B_ in g.blocks.values():
+            if B_.tcond is None:
+                continue
+            a_ = g.strip(B_.tcond)
+            for (s_, lab_) in g.succ_edges(B_.id):
+                if lab_ in (True, False) and is_fail(a_, lab_):
+                    g_fail.append((B_.id, s_, lab_, None))
+        g_big = g.gate_edges(lambda atom, pol, g=g: g.N(atom)['k'] == 'BinaryOperator' and g.N(atom).get('op') in ('==', '!=') and 7 in [g.const_value(x) for x in g.N(atom)['ch']] and pol is (g.N(atom)['op'] == '=='))
+        g_skip = g.gate_edges(lambda atom, pol, g=g: g.N(atom)['k'] == 'BinaryOperator' and g.N(atom).get('op') in ('==', '!=') and any(model.strip_targs(x).endswith('iconverter_base::how_') for x in g.subtree_refs(atom)) and
+                              any((x or '').endswith('conv::stop') for x in g.subtree_refs(atom)) and pol is (g.N(atom)['op'] != '=='))
+        thr = [g.point_of(t_)[0] for t_ in g.all_nodes() if g.N(t_)['k'] == 'CXXThrowExpr' and g.point_of(t_) is not None]
+        ok_ic = bool(g_fail) and bool(g_big) and bool(g_skip) and bool(thr)
+        if ok_ic:
+            for (b_, s_, lab_, tag_) in g_fail:
+                if len((b_, s_, lab_, tag_)) != 4:
+                    continue
+                rb = g.reachable_blocks(start=s_, cut_edges=list(g_big) + list(g_skip), cut_blocks=thr)
+                if g.exit in rb:
+                    ok_ic = False
+        if seen_ic and ok_ic:
+            continue
+        seen_ic = True
+        ctx.check(ok_ic, R6, 'iconv real_convert:a-failed-step-under-stop-throws-unless-E2BIG', 'with method stop a conversion step that failed for a reason other than a full output buffer (ill-formed or truncated '
+                  'input) can end the conversion normally: ill-formed text in such an encoding is reported valid', g.where)
     # the generic (iconv / ICU) fall-back of encoding::valid must let conversion errors surface
     vf = [f for f in PE.by_bname.get('cppcms::encoding::valid', []) if len(f.params) == 4 and 'basic_string' in f.id]
     ctx.require(len(vf) >= 1, 'C14.R6: encoding::valid(encoding,begin,end,count) not found')
